@@ -23,9 +23,28 @@ package provider
 //   restart-resume     (4) keys queued at Close are advertised after a resumed restart
 //   recipient-reported (6) every recipient was reported by the router before
 //
-// False-alarm guards: worker configurations always leave >= 1 worker usable by each class;
-// obligations count healthy recipients only; swarm churn, address changes and Close happen at
-// rest points only (nothing in flight); Close is started only after the initial measurement.
+//
+// Stable signatures of the defects known on the unrepaired tree (DESIGN.md §6):
+//   alloc/not-r-nearest                    #7  a key is advertised, but not to all healthy peers among
+//                                              its r nearest (region allocation compares wrong bits)
+//   reprovide/gap-exceeds-bound            #11 a kept key gets no ADD_PROVIDER at all during a window
+//                                              (keys reprovided every second cycle)
+//   …/not-advertised/provide-once-key,     #18 a key queued by ProvideOnce (not in the keystore) is
+//   restart/not-resumed/provide-once-key       dropped when the reprovide of its region empties the
+//                                              provide queue under the region's prefix
+// A miss that follows an exploration stopped at the provider's cap of 64 lookups is documented
+// behaviour (bounded exploration, heals in the next cycle): counted as an observation, not judged;
+// the generator keeps clustered swarms <= 600 peers and growth <= x4 per step to stay below the cap.
+//
+// False-alarm guards: worker configurations always leave >= 1 worker usable by each class and are
+// given slow / dead recipients only together with >= 8 connections per worker ("workers keep up");
+// obligations count healthy recipients only, dead recipients only with r >= 5 (< 80 % failing per
+// region); unreachable recipients fail after a dial timeout, never instantly (the provider retries a
+// failed region at once); swarm churn, address changes and the final Close happen at rest points
+// only (nothing in flight); Close is started only after the initial prefix-length measurement and
+// never while a lookup sleeps under the connectivity checker's mutex (synctest would stall).
+// approxPrefixLen draws its probe keys from crypto/rand: replays repeat the scenario, not the exact
+// initial prefix length.
 
 import (
 	"context"
@@ -44,16 +63,16 @@ import (
 	"time"
 
 	ds "github.com/ipfs/go-datastore"
-	logging "github.com/ipfs/go-log/v2"
 	"github.com/ipfs/go-datastore/namespace"
 	dssync "github.com/ipfs/go-datastore/sync"
+	"github.com/ipfs/go-libdht/kad/key/bitstr"
+	logging "github.com/ipfs/go-log/v2"
 	kb "github.com/libp2p/go-libp2p-kbucket"
 	"github.com/libp2p/go-libp2p/core/peer"
 	ma "github.com/multiformats/go-multiaddr"
+	mh "github.com/multiformats/go-multihash"
 	"go.uber.org/zap"
 	"go.uber.org/zap/zapcore"
-	"github.com/ipfs/go-libdht/kad/key/bitstr"
-	mh "github.com/multiformats/go-multihash"
 
 	"github.com/libp2p/go-libp2p-kad-dht/internal/verif/vh"
 	pb "github.com/libp2p/go-libp2p-kad-dht/pb"
@@ -63,19 +82,19 @@ import (
 )
 
 const (
-	vC17K            = 20 // bucket size of the simulated closest-peers router
-	vC17Interval     = time.Hour
-	vC17MaxDelay     = 5 * time.Minute
-	vC17ProvideBound = 30 * time.Minute
-	vC17CatchUpBound = 30 * time.Minute
-	vC17SlackBase    = 2 * time.Minute
-	vC17BatchCap     = 5 * time.Minute // measured batch time never widens the slack by more
+	vC17K             = 20 // bucket size of the simulated closest-peers router
+	vC17Interval      = time.Hour
+	vC17MaxDelay      = 5 * time.Minute
+	vC17ProvideBound  = 30 * time.Minute
+	vC17CatchUpBound  = 30 * time.Minute
+	vC17SlackBase     = 2 * time.Minute
+	vC17BatchCap      = 5 * time.Minute        // measured batch time never widens the slack by more
 	vC17DeadFailLat   = 2 * time.Second        // an unreachable recipient fails after a dial timeout
 	vC17OutageFailLat = 200 * time.Millisecond // lookups and RPCs fail quickly while the network is down
-	vC17CapSig       = "explore/lookup-cap" // label of misses that follow a capped exploration (observation, no verdict)
-	vC17MaxClustered = 600 // largest clustered swarm (70 % under one prefix) generated
-	vC17PoolPeers    = 12000
-	vC17PoolKeys     = 6000
+	vC17CapSig        = "explore/lookup-cap"   // label of misses that follow a capped exploration (observation, no verdict)
+	vC17MaxClustered  = 600                    // largest clustered swarm (70 % under one prefix) generated
+	vC17PoolPeers     = 12000
+	vC17PoolKeys      = 6000
 )
 
 // ---- pool of peers and keys (independent key arithmetic: sha256 of the raw bytes) -----------
@@ -238,7 +257,7 @@ type vC17Sim struct {
 	deadPct            int
 	routerLat, sendLat atomic.Int64 // max injected latency (ns)
 
-	provideClause, provideSig string // how a missed hand-over obligation is reported
+	provideClause, provideSig string               // how a missed hand-over obligation is reported
 	sigOf                     func(k int32) string // optional refinement of provideSig per key
 	noteOf                    func(k int32) string // optional annotation of a key in witnesses
 
@@ -763,7 +782,7 @@ func (s *vC17Sim) allocSig(v *vC17Verdict, k int32, lo, hi time.Duration) (*int,
 }
 
 type vC17Verdict struct {
-	capFail int
+	capFail                                                 int
 	provideJudged, windowsJudged, stopJudged, catchupJudged int
 	allocFail, gapFail, provFail, stopFail, catchFail       int
 }
@@ -1162,7 +1181,7 @@ func vC17SelfCheck(c *vh.Case) bool {
 
 func TestVerif_C17_provide(t *testing.T) {
 	vh.Run(t, vh.Spec{Prop: "C17", Unit: "provide", Quick: 42, Thorough: 1200, CostMs: 60,
-		Rule: "PRNG scenario: swarm of 1-2400 simulated peers (uniform / 70% under one prefix / tiny), router K=20, r in {1,3,5,20}, 0 or 30% dead recipients, worker configurations leaving each class a worker, 0 or 20-100 ms / 2-20 ms router/peer latency; 1-600 keys (uniform or single prefix) handed over in 1-4 StartProviding/ProvideOnce calls plus a forced repeat, own addresses changed at a rest point; 35 virtual minutes; cases with index mod 7 in {1,5}: 300-500 kept keys, then 300-500 ProvideOnce keys draining slowly (400-900 ms per RPC) while the scheduled reprovides of their regions fire; non-trivial = >= 1 hand-over obligation judged; distinct by parameter tuple",
+		Rule:    "PRNG scenario: swarm of 1-2400 simulated peers (uniform / 70% under one prefix / tiny), router K=20, r in {1,3,5,20}, 0 or 30% dead recipients, worker configurations leaving each class a worker, 0 or 20-100 ms / 2-20 ms router/peer latency; 1-600 keys (uniform or single prefix) handed over in 1-4 StartProviding/ProvideOnce calls plus a forced repeat, own addresses changed at a rest point; 35 virtual minutes; cases with index mod 7 in {1,5}: 300-500 kept keys, then 300-500 ProvideOnce keys draining slowly (400-900 ms per RPC) while the scheduled reprovides of their regions fire; non-trivial = >= 1 hand-over obligation judged; distinct by parameter tuple",
 		Clauses: []string{"selfcheck", "provide-bound", "payload", "recipient-reported"}},
 		func(c *vh.Case) {
 			if !vC17SelfCheck(c) {
@@ -1286,7 +1305,7 @@ func vC17OnceDuringReprovide(t *testing.T, c *vh.Case) {
 
 func TestVerif_C17_reprovide(t *testing.T) {
 	vh.Run(t, vh.Spec{Prop: "C17", Unit: "reprovide", Quick: 98, Thorough: 3000, CostMs: 120,
-		Rule: "PRNG scenario over 3.6-4.6 virtual hours (interval 1 h, max delay 5 min): keys started in 1-3 calls during the first minutes, then by class (index mod 7): 0/1 steady small provider (800-2000 peers, 30-120 keys: <= 2 keys per region), 2 swarm x4 at a rest point, 3 swarm /4, 4 x4 then /4, 5 many keys with StopProviding / restart of a subset, 6 random churn (3 redraws of the swarm size within [n/4, 4n], <= 2000); clustered swarms stay <= 600 peers (lookup cap of the exploration); r in {1,3,5,20} vs router K=20, dead recipients, worker configurations, latencies as in unit provide; window oracle on every kept key; non-trivial = >= 3 cycles observed and >= 1 full window judged; distinct by parameter tuple + script",
+		Rule:    "PRNG scenario over 3.6-4.6 virtual hours (interval 1 h, max delay 5 min): keys started in 1-3 calls during the first minutes, then by class (index mod 7): 0/1 steady small provider (800-2000 peers, 30-120 keys: <= 2 keys per region), 2 swarm x4 at a rest point, 3 swarm /4, 4 x4 then /4, 5 many keys with StopProviding / restart of a subset, 6 random churn (3 redraws of the swarm size within [n/4, 4n], <= 2000); clustered swarms stay <= 600 peers (lookup cap of the exploration); r in {1,3,5,20} vs router K=20, dead recipients, worker configurations, latencies as in unit provide; window oracle on every kept key; non-trivial = >= 3 cycles observed and >= 1 full window judged; distinct by parameter tuple + script",
 		Clauses: []string{"selfcheck", "provide-bound", "reprovide-window", "stop", "payload", "recipient-reported"}},
 		func(c *vh.Case) {
 			if !vC17SelfCheck(c) {
@@ -1477,7 +1496,7 @@ func TestVerif_C17_reprovide(t *testing.T) {
 
 func TestVerif_C17_outage(t *testing.T) {
 	vh.Run(t, vh.Spec{Prop: "C17", Unit: "outage", Quick: 24, Thorough: 700, CostMs: 80,
-		Rule: "PRNG scenario: 100-1500 peers, 20-400 keys started in the first minutes; after 40-100 min router and peers fail for 1.2-2.8 h (longer than interval + max delay, so every region misses its slot), offline delay 30 min / 2 h (default) / 4 h (Disconnected only); then 1.4 h online; oracle: windows before the outage, complete re-advertisement of every kept key within the catch-up bound, windows afterwards; non-trivial = the provider noticed the outage (left Online) and catch-up was judged for >= 1 key; distinct by parameter tuple",
+		Rule:    "PRNG scenario: 100-1500 peers, 20-400 keys started in the first minutes; after 40-100 min router and peers fail for 1.2-2.8 h (longer than interval + max delay, so every region misses its slot), offline delay 30 min / 2 h (default) / 4 h (Disconnected only); then 1.4 h online; oracle: windows before the outage, complete re-advertisement of every kept key within the catch-up bound, windows afterwards; non-trivial = the provider noticed the outage (left Online) and catch-up was judged for >= 1 key; distinct by parameter tuple",
 		Clauses: []string{"selfcheck", "provide-bound", "catch-up", "reprovide-window", "recipient-reported"}},
 		func(c *vh.Case) {
 			if !vC17SelfCheck(c) {
@@ -1579,7 +1598,7 @@ func vC17QueueKeys(q *queue.ProvideQueue) ([]mh.Multihash, error) {
 
 func TestVerif_C17_restart(t *testing.T) {
 	vh.Run(t, vh.Spec{Prop: "C17", Unit: "restart", Quick: 24, Thorough: 700, CostMs: 60,
-		Rule: "PRNG scenario: 300-1500 peers, 20-400 ProvideOnce keys + 0-200 StartProviding keys (none in every third case) handed to a first provider whose provide queue cannot drain before Close (one worker, 1-3 connections, recipients taking 150-400 ms; Close 1-40 s or 0-50 ms after the hand-over); queue content sampled right before Close; a second provider on the same datastore/keystore with resume (default) must advertise every sampled key completely within 30 virtual minutes; non-trivial = >= 1 key was still queued at Close; distinct by parameter tuple + queued count",
+		Rule:    "PRNG scenario: 300-1500 peers, 20-400 ProvideOnce keys + 0-200 StartProviding keys (none in every third case) handed to a first provider whose provide queue cannot drain before Close (one worker, 1-3 connections, recipients taking 150-400 ms; Close 1-40 s or 0-50 ms after the hand-over); queue content sampled right before Close; a second provider on the same datastore/keystore with resume (default) must advertise every sampled key completely within 30 virtual minutes; non-trivial = >= 1 key was still queued at Close; distinct by parameter tuple + queued count",
 		Clauses: []string{"selfcheck", "restart-resume", "recipient-reported", "payload"}},
 		func(c *vh.Case) {
 			if !vC17SelfCheck(c) {
